@@ -4,6 +4,7 @@ from __future__ import annotations
 
 import ast
 from dataclasses import replace
+from typing import Optional
 
 from ..astutil import controlling_atoms, u
 from ..cfg import flow
@@ -110,3 +111,134 @@ def rules(ctx: Ctx) -> None:
     from .common import import_rules as _imp8
 
     _imp8(ctx, "C16", {"R16.2": "R08.5"}, key_filter=lambda o: "(alias)" in o.key or "->alias" in o.key)
+
+    # ---- R08.6 the alias name is not picked by a position at which the alias operator or the column list can stand
+    _alias_name_rule(ctx)
+
+
+# ---- R08.6 -------------------------------------------------------------------------------------------------------------------
+_NOT_A_NAME = {"bracketed", "alias_operator", "keyword", "symbol"}
+
+
+def _alias_name_rule(ctx: Ctx) -> None:
+    """The name of an alias is taken from an `alias_expression` node whose grammar (read from the installed dialects) is
+    [operator] name [column list] - and, in tsql, name operator.  A pick by position among its children is acceptable only if no child that
+    is not a name can stand at that position once the children the code filters out by type are removed."""
+    from ..grammar import grammar, installed_dialects
+    from ..safety import _const_index
+
+    prog = ctx.prog
+    T = "alias_expression"
+    fns = [f for f in prog.funcs.values() if f.mod.name.startswith("sqllineage.core.parser.sqlfluff")]
+
+    def is_alias_here(f: Fn, site: ast.AST, e: ast.AST) -> bool:
+        txt = u(e)
+        if any(p and t == f"{txt}.type == {T!r}" for t, p in flow(prog, f).facts_for(site)):
+            return True
+        for v in prog.value_sources(f, e):
+            if isinstance(v, ast.Call) and isinstance(v.func, ast.Attribute) and v.func.attr == "get_child" and v.args and prog.try_fold(v.args[0], f.mod, f) == T:
+                return True
+        return False
+
+    # routines that are handed an alias_expression: (callee, parameter name)
+    subjects: dict[tuple[str, str], tuple[Fn, str]] = {}
+    n_calls = 0
+    for f in fns:
+        for n in prog.walk_fn(f):
+            if isinstance(n, ast.Call) and n.args:
+                for i, a in enumerate(n.args):
+                    if isinstance(a, ast.Starred) or not is_alias_here(f, n, a):
+                        continue
+                    for cal in prog.resolve_call(n, f):
+                        if isinstance(cal, Fn) and cal.mod.name.startswith("sqllineage."):
+                            ps = [p_ for p_ in cal.params() if p_ not in ("self", "cls")]
+                            if i < len(ps):
+                                subjects[(cal.qual, ps[i])] = (cal, ps[i])
+                                n_calls += 1
+    ctx.floor("calls that hand an alias_expression to a routine of the package", n_calls, 2)
+
+    def children_of(f: Fn, e: ast.AST, site: ast.AST, seg: str, assume: bool, depth: int = 0) -> Optional[list[frozenset]]:
+        """If `e` is (a filtered copy of) the children of segment `seg`: the type sets filtered out, one per way the value can be built."""
+        if depth > 4:
+            return None
+        if isinstance(e, ast.Call):
+            nm = e.func.attr if isinstance(e.func, ast.Attribute) else e.func.id if isinstance(e.func, ast.Name) else ""
+            if nm == "list_child_segments" and e.args and u(e.args[0]) == seg:
+                return [frozenset()]
+            if nm in ("get_children", "iter_segments") and isinstance(e.func, ast.Attribute) and u(e.func.value) == seg:
+                return [frozenset()]
+            if nm in ("list", "tuple") and e.args:
+                return children_of(f, e.args[0], site, seg, assume, depth + 1)
+            return None
+        if isinstance(e, ast.Attribute) and e.attr == "segments" and u(e.value) == seg:
+            return [frozenset()]
+        if isinstance(e, (ast.ListComp, ast.GeneratorExp)) and len(e.generators) == 1 and isinstance(e.elt, ast.Name) and isinstance(e.generators[0].target, ast.Name) \
+                and e.elt.id == e.generators[0].target.id:
+            inner = children_of(f, e.generators[0].iter, e, seg, assume, depth + 1)
+            if inner is None:
+                return None
+            var = e.elt.id
+            drop: set[str] = set()
+            for c in e.generators[0].ifs:
+                for atom in (c.values if isinstance(c, ast.BoolOp) and isinstance(c.op, ast.And) else [c]):
+                    if isinstance(atom, ast.Compare) and len(atom.ops) == 1 and u(atom.left) == f"{var}.type":
+                        val = prog.try_fold(atom.comparators[0], f.mod, f)
+                        if isinstance(atom.ops[0], ast.NotEq) and isinstance(val, str):
+                            drop.add(val)
+                        elif isinstance(atom.ops[0], ast.NotIn) and isinstance(val, (tuple, list, set, frozenset)):
+                            drop |= {x for x in val if isinstance(x, str)}
+            return [s_ | frozenset(drop) for s_ in inner]
+        if isinstance(e, ast.Name):
+            fl = flow(prog, f)
+            defs = fl.reaching_defs_assuming(site, e.id, f"{seg}.type == {T!r}", True) if assume else fl.reaching_defs(site, e.id)
+            out: list[frozenset] = []
+            for kind, dn in defs:
+                val = getattr(dn, "value", None)
+                if kind not in ("assign", "walrus", "annassign") or val is None:
+                    return None
+                r = children_of(f, val, dn, seg, assume, depth + 1)
+                if r is None:
+                    return None
+                out += r
+            return out or None
+        return None
+
+    dialects = installed_dialects()
+    n_picks = 0
+    for f in fns:
+        segs = {p_ for (q, p_) in subjects if q == f.qual}
+        for n in prog.walk_fn(f):
+            if not (isinstance(n, ast.Subscript) and isinstance(n.ctx, ast.Load) and not isinstance(n.slice, ast.Slice)):
+                continue
+            idx = _const_index(prog, f, n.slice)
+            if idx is None or idx[0] != "const":
+                continue
+            # segments known to be alias expressions here: parameters handed one, and locals tested for the type
+            here = set(segs)
+            for t, p in flow(prog, f).facts_for(n):
+                if p and t.endswith(f".type == {T!r}"):
+                    here.add(t[: -len(f".type == {T!r}")])
+            for seg in sorted(here):
+                filt = children_of(f, n.value, n, seg, assume=True)
+                if filt is None:
+                    continue
+                n_picks += 1
+                ctx.touched(f)
+                bad: dict[str, list[str]] = {}
+                for drop in filt:
+                    for d in dialects:
+                        g = grammar(d)
+                        if idx[1] in (0, -1):
+                            poss = g.edge_types(T, last=idx[1] == -1, skip=drop)
+                        else:
+                            poss = g.children(T) - drop  # any child can stand in the middle
+                        for b in sorted(poss & _NOT_A_NAME):
+                            bad.setdefault(b, []).append(d)
+                what = f"`{u(n)[:60]}` picks the alias name by position among the children of an alias_expression" + (f" after dropping {sorted(set().union(*filt))}" if any(filt) else "")
+                if not bad:
+                    ctx.ob("R08.6", f"alias-name-by-type:{f.owner}:{idx[1]}", True, loc(f.mod, n), what + ": every child that can stand there is a name")
+                for b, ds in sorted(bad.items()):
+                    ctx.ob("R08.6", f"alias-name-by-type:{f.owner}:{idx[1]}:{b}", False, loc(f.mod, n),
+                           what + f": a `{b}` can stand there ({', '.join(ds[:4])}{' ...' if len(ds) > 4 else ''}) - the alias would be the operator, the column list or a keyword, "
+                           "and the spelling of the alias decides which")
+    ctx.floor("positional picks of an alias name", n_picks, 1)
